@@ -38,14 +38,21 @@ STOPPING_KNOBS = {'n_min': 3, 'n_max': 4,
 STOPPING_COUNT = {'quick': 200, 'thorough': 3000}
 
 
+# and a family with slow handshakes (each of its XML-RPCs takes 0 - 3 s): the process table read during a handshake is
+# delivered after the events that the peer publishes meanwhile
+SLOW_KNOBS = dict(KNOBS, handshake_skew=[0.0, 0.3, 1.0, 2.0, 3.0])
+
+
 def plan(tier, seed):
-    return [{'seed': seed * 1000003 + i} for i in range(COUNT[tier])] + \
+    return [{'seed': seed * 1000003 + 900000 + i, 'family': 'slow-handshake'} for i in range(COUNT[tier] // 8)] + \
+        [{'seed': seed * 1000003 + i} for i in range(COUNT[tier])] + \
         [{'seed': seed * 1000003 + 800000 + i, 'family': 'lost-while-stopping'} for i in range(STOPPING_COUNT[tier])]
 
 
 def run_case(case):
     mon = AgreementMonitor()
-    run = Run(case, STOPPING_KNOBS if case.get('family') == 'lost-while-stopping' else KNOBS, [mon])
+    run = Run(case, {'lost-while-stopping': STOPPING_KNOBS, 'slow-handshake': SLOW_KNOBS}.get(case.get('family'), KNOBS),
+              [mon])
     violations = run.execute()
     nontrivial = mon.counters.get('running_views_compared', 0) > 0 and mon.counters.get('pairs_compared', 0) > 0
     return {'violations': violations, 'counters': run.counters,
